@@ -116,7 +116,12 @@ func genPool(seed uint64, idx uint64, thorough bool) tlive.Scenario {
 			case "near":
 				n := r.Range(1, 3)
 				for i := 0; i < n; i++ {
-					sc.Acts = append(sc.Acts, tlive.Act{G: g, Op: "call", Fut: sc.NFut, DUs: int64(r.Range(500, 4000)), WaitUs: int64(r.Intn(3000))})
+					d := int64(r.Range(500, 4000))
+					if sc.IdleUs > 0 && r.Chance(1, 3) {
+						// not so near: further away than the idle timeout (1.1 .. 2.5 of it), still ahead of any far one
+						d = sc.IdleUs * int64(r.Range(11, 25)) / 10
+					}
+					sc.Acts = append(sc.Acts, tlive.Act{G: g, Op: "call", Fut: sc.NFut, DUs: d, WaitUs: int64(r.Intn(3000))})
 					sc.NFut++
 				}
 			case "burst":
@@ -502,7 +507,7 @@ func main() {
 	s.Extra["max_wind_down_ms"] = float64(maxWind) / 1e6
 	s.Close("(a) tight re-arm behind a distant future (2 processes, GOMAXPROCS 2..16): 1-3 futures 1 h away keep the worker heading for a long sleep while 1-4 callers schedule zero-delay / 0-30 us futures, each right after the previous callback of that caller started (busy-loop gaps i mod 1..257), optionally a near head scheduled and cancelled at once every k-th iteration and cancelled again later; "+
 		"per iteration: started within 1 s, start > call + d, callbacks <= calls, cancelled heads never run (folded; sampled iterations verbatim); a stall counts only if it happened in three runs of the scenario in a row while the canary (200 us sleeper) overslept < 50 ms; "+
-		"(b) live scenarios (one at a time per process, 8 processes): family patterns = per caller a permutation of the phases {far (1 h, cancelled at the end), near (0.5-4 ms), burst of maxWorkers+1..6 due at once, cancel-head (head of the queue cancelled, follower must be re-armed for), idle gap of 1.1-2.6 idle}; "+
+		"(b) live scenarios (one at a time per process, 8 processes): family patterns = per caller a permutation of the phases {far (1 h, cancelled at the end), near (0.5-4 ms, a third of them 1.1-2.5 idle timeouts), burst of maxWorkers+1..6 due at once, cancel-head (head of the queue cancelled, follower must be re-armed for), idle gap of 1.1-2.6 idle}; "+
 		"1-4 concurrent callers, idle in {5, 20, 50 ms, default 30 s}, maxWorkers 1..10 (hook VerifSetPool); thorough: all 120 orders x 4 idle values; family recancel = 2-6 pending futures, one cancelled, 1-4 more scheduled, the same one cancelled again (also twice in a row, after a fired one was cancelled, and deferred after the round), every other future must start; family sparse = a burst larger than the pool, then (workers in their idle sleep, idle 2-4 s or default) fewer near futures than there are surplus workers; "+
 		"(c) the premises of the theorems (0 <= idleTimeout, 1 <= maxWorkers, 1 <= cap(wakeCh)) read through VerifPool. "+
 		"observed: start of every callback vs its fireT (lateness histogram in the distribution), lock-held snapshots (worker count, tokens, heap; the head never due for more than 1 s), wind-down to zero workers, restart. non-trivial = at least 3 futures", false)
